@@ -224,6 +224,26 @@ fn err_class(e: &actix_http::error::ParseError) -> &'static str {
     }
 }
 
+/// the head of a request as the application sees it (header names lower-case, stably sorted by name)
+fn msg_of_request(req: &Request) -> Msg {
+    let mut headers: Vec<(Vec<u8>, Vec<u8>)> = vec![];
+    let mut names: Vec<String> = req.headers().keys().map(|k| k.as_str().to_string()).collect();
+    names.sort();
+    for n in names {
+        for v in req.headers().get_all(n.as_str()) {
+            headers.push((n.as_bytes().to_vec(), v.as_bytes().to_vec()));
+        }
+    }
+    Msg {
+        method: req.method().as_str().as_bytes().to_vec(),
+        target: req.uri().to_string().into_bytes(),
+        version: if req.version() == http::Version::HTTP_11 { 1 } else { 0 },
+        headers,
+        body: vec![],
+        done: false,
+    }
+}
+
 // ------------------------------------------------------------------ runner A
 fn run_a(segs: &[Vec<u8>]) -> Outcome {
     vh::exec::run_local(async {
@@ -234,24 +254,7 @@ fn run_a(segs: &[Vec<u8>]) -> Outcome {
             buf.extend_from_slice(seg);
             loop {
                 match codec.decode(&mut buf) {
-                    Ok(Some(h1::Message::Item(req))) => {
-                        let mut headers: Vec<(Vec<u8>, Vec<u8>)> = vec![];
-                        let mut names: Vec<String> = req.headers().keys().map(|k| k.as_str().to_string()).collect();
-                        names.sort();
-                        for n in names {
-                            for v in req.headers().get_all(n.as_str()) {
-                                headers.push((n.as_bytes().to_vec(), v.as_bytes().to_vec()));
-                            }
-                        }
-                        msgs.push(Msg {
-                            method: req.method().as_str().as_bytes().to_vec(),
-                            target: req.uri().to_string().into_bytes(),
-                            version: if req.version() == http::Version::HTTP_11 { 1 } else { 0 },
-                            headers,
-                            body: vec![],
-                            done: false,
-                        });
-                    }
+                    Ok(Some(h1::Message::Item(req))) => msgs.push(msg_of_request(&req)),
                     Ok(Some(h1::Message::Chunk(Some(b)))) => {
                         if let Some(m) = msgs.last_mut() {
                             m.body.extend_from_slice(&b);
@@ -288,6 +291,9 @@ struct Disp {
     own_last: bool,
     /// (method, target) of every request handed to the service, in order
     reqs: Vec<(Vec<u8>, Vec<u8>)>,
+    /// the same requests as the handler saw them: head (version, header list) and the body bytes its
+    /// payload stream yielded (`done` = the stream ended without an error)
+    seen: Vec<Msg>,
     /// observed schedule, run-length encoded: (bytes taken from the socket during one poll of the
     /// connection future, number of consecutive such polls); runs of idle polls are capped at 3
     polls: Vec<(usize, usize)>,
@@ -328,22 +334,33 @@ fn run_b(segs: &[Vec<u8>], delays: &[u8], wblock: u8) -> Disp {
         let calls2 = calls.clone();
         let reqs = Rc::new(std::cell::RefCell::new(Vec::<(Vec<u8>, Vec<u8>)>::new()));
         let reqs2 = reqs.clone();
+        let seen = Rc::new(std::cell::RefCell::new(Vec::<Msg>::new()));
+        let seen2 = seen.clone();
         let reads = Rc::new(std::cell::RefCell::new(Vec::<usize>::new()));
         let reads2 = reads.clone();
         let mut conn = Conn::start(ConnCfg::default(), io.clone(), move |mut req: Request| {
             let k = delays.get(calls2.get()).copied().unwrap_or(0);
+            let idx = calls2.get();
             calls2.set(calls2.get() + 1);
             reqs2.borrow_mut().push((req.method().as_str().as_bytes().to_vec(), req.uri().to_string().into_bytes()));
+            seen2.borrow_mut().push(msg_of_request(&req));
+            let seen3 = seen2.clone();
             async move {
                 if k % 2 == 1 {
                     PendingFor(k).await;
                 }
                 let mut pl = req.take_payload();
+                let mut clean_end = true;
                 while let Some(item) = pl.next().await {
-                    if item.is_err() {
-                        break;
+                    match item {
+                        Ok(b) => seen3.borrow_mut()[idx].body.extend_from_slice(&b),
+                        Err(_) => {
+                            clean_end = false;
+                            break;
+                        }
                     }
                 }
+                seen3.borrow_mut()[idx].done = clean_end;
                 if k % 2 == 0 {
                     PendingFor(k).await;
                 }
@@ -395,6 +412,7 @@ fn run_b(segs: &[Vec<u8>], delays: &[u8], wblock: u8) -> Disp {
         let closed = conn.finished.is_some() || io.0.borrow().shutdown_called > 0;
         let reqs_v = reqs.borrow().clone();
         let reads_v = reads.borrow().clone();
+        let seen_v = seen.borrow().clone();
         Disp {
             own_statuses: rs.iter().filter(|r| !r.1 && r.0 != 100).map(|r| r.0).collect(),
             dispatched: calls.get(),
@@ -405,6 +423,7 @@ fn run_b(segs: &[Vec<u8>], delays: &[u8], wblock: u8) -> Disp {
                 None => true,
             },
             reqs: reqs_v,
+            seen: seen_v,
             polls: {
                 let mut out: Vec<(usize, usize)> = vec![];
                 // bytes the client sent that the dispatcher never took from the socket (it had
@@ -459,6 +478,9 @@ enum RefEnd {
 struct Classes {
     f3_empty_size_line: bool,
     f19_head_in_band: bool,
+    /// lengths of the complete request heads of >= MAX_BUFFER_SIZE bytes (the F19 class is
+    /// recomputed from them in `emit_case` with the case's largest read)
+    long_heads: Vec<usize>,
     f22_chunk_error: bool,
     /// filled by `emit_case` from `spans` and the segment ends
     f25_pipelined_body_split: bool,
@@ -559,6 +581,9 @@ fn reference(s: &[u8]) -> RefOut {
         let head_len = hl + 4;
         if head_len >= MAX_BUFFER_SIZE && head_len < MAX_BUFFER_SIZE + HW_BUFFER_SIZE {
             classes.f19_head_in_band = true;
+        }
+        if head_len >= MAX_BUFFER_SIZE {
+            classes.long_heads.push(head_len);
         }
         let mut lines: Vec<&[u8]> = vec![];
         let mut q = 0;
@@ -804,6 +829,25 @@ fn judge(a: &Outcome, base: &Outcome, b: Option<&Disp>, r: &RefOut) -> (bool, St
             }
         }
     }
+    // (iii') every request the application was handed is the reference's request at that position:
+    // method, target, version, header list; and, when the reference has its body complete, exactly
+    // those body bytes (a body cut short by a later I/O-class drop is the F22 class)
+    if let Some(d) = b {
+        for (i, m) in d.seen.iter().enumerate() {
+            let Some(rm) = r.msgs.get(i) else { break };
+            if (&m.method, &m.target, m.version, &m.headers) != (&rm.method, &rm.target, rm.version, &rm.headers) {
+                fails.push((
+                    format!("request #{i} handed to the service differs from the reference: service saw {} ; reference {}", show_msg(m), show_msg(rm)),
+                    explain(cl, &["F19-head-in-band"]),
+                ));
+            } else if rm.done && !matches!(r.end, RefEnd::Rejected("chunk")) && (m.body != rm.body || !m.done) {
+                fails.push((
+                    format!("request #{i}: body seen by the service ({}, complete={}) differs from the reference body ({})", show_bytes(&m.body), m.done, show_bytes(&rm.body)),
+                    explain(cl, &["F19-head-in-band"]),
+                ));
+            }
+        }
+    }
     if fails.is_empty() {
         return (true, String::new(), String::new());
     }
@@ -829,6 +873,16 @@ fn emit_case(em: &mut Emitter, id: String, mut case: Case) {
     }
     let segs = segments(&case.seg, &data);
     let mut r = reference(&data);
+    // class F19 (predicate on the case: head lengths and read sizes): the TooLarge test is made only
+    // when the tokenizer says Partial, so a head of >= MAX_BUFFER_SIZE bytes is still accepted when one
+    // read carries the buffer from below MAX_BUFFER_SIZE past the end of the head.  The width of the
+    // band is therefore the largest single read: HW_BUFFER_SIZE for the 8 KiB reads of the read loop's
+    // own buffer growth, the largest offered segment when the socket delivers more at once (the spare
+    // capacity of read_buf grows by doubling).
+    let max_read = segs.iter().map(|s| s.len()).max().unwrap_or(0).max(HW_BUFFER_SIZE);
+    if r.classes.long_heads.iter().any(|&h| h < MAX_BUFFER_SIZE + max_read) {
+        r.classes.f19_head_in_band = true;
+    }
     // class F25: at the end of some read, a request other than the first one has its body in flight
     let mut ends = vec![];
     let mut acc = 0;
@@ -891,7 +945,17 @@ fn emit_case(em: &mut Emitter, id: String, mut case: Case) {
                 }
             };
             let v = W::T("c01", vec![w_outcome(&a), vb]);
-            let show = format!("{}{}", show_outcome(&a), b.as_ref().map(|d| format!(" disp={:?}", d)).unwrap_or_default());
+            let show = format!(
+                "{}{}",
+                show_outcome(&a),
+                b.as_ref()
+                    .map(|d| {
+                        let mut d2 = d.clone();
+                        let seen = std::mem::take(&mut d2.seen);
+                        format!(" disp={:?} seen=[{}]", d2, seen.iter().map(show_msg).collect::<Vec<_>>().join(" | "))
+                    })
+                    .unwrap_or_default()
+            );
             em.emit(CaseOut {
                 id,
                 input,
@@ -1217,7 +1281,108 @@ fn gen_malformed(b: &mut Builder, rng: &mut Rng, class: &str) {
     }
 }
 
+/// Family "big head" (runner B): a well-framed request whose head length lies strictly between the
+/// request payload's 32 KiB buffer constant and the decoder's MAX_BUFFER_SIZE (below the F19 band),
+/// or at/above MAX_BUFFER_SIZE + HW_BUFFER_SIZE (always refused), as the first request of the
+/// connection or behind 1-2 answered keep-alive requests, optionally followed by one more request,
+/// under whole / 4 KiB / 16 KiB / boundary-cut segmentations.  `variant` enumerates the family
+/// deterministically (used for the corpus lines); random choices come from `rng`.
+fn gen_big_head_case(rng: &mut Rng, thorough: bool) -> Case {
+    let mut b = Builder::new();
+    b.tag("family:big-head");
+    let before = *rng.pick(&[0usize, 1, 1, 2]);
+    b.tag(if before == 0 { "bighead:first-request" } else { "bighead:keep-alive-later-request" });
+    for i in 0..before {
+        b.mark();
+        match rng.below(3) {
+            0 => b.lit(format!("GET /first{i} HTTP/1.1\r\nHost: x\r\n\r\n").as_bytes()),
+            1 => b.lit(format!("POST /first{i} HTTP/1.1\r\nContent-Length: 3\r\n\r\nabc").as_bytes()),
+            _ => b.lit(format!("PUT /first{i} HTTP/1.1\r\nTransfer-Encoding: chunked\r\n\r\n2\r\nhi\r\n0\r\n\r\n").as_bytes()),
+        }
+    }
+    let start = b.pos;
+    let oversize = rng.chance(1, 4);
+    // head = request line + fixed headers + `x-big: ` <run> CRLF + `x-tail: z` CRLF + framing + CRLF
+    let (method, framing): (&str, &str) = *rng.pick(&[
+        ("GET", ""),
+        ("POST", "Content-Length: 5\r\n"),
+        ("PUT", "Transfer-Encoding: chunked\r\n"),
+    ]);
+    let pre = format!("{method} /big HTTP/1.1\r\nHost: example.com\r\nx-big: ");
+    let post = format!("\r\nx-tail: z\r\n{framing}\r\n");
+    let fixed = pre.len() + post.len();
+    let total = if oversize {
+        b.tag("bighead:oversize(>=MAX+HW)");
+        MAX_BUFFER_SIZE + HW_BUFFER_SIZE + *rng.pick(&[0usize, 1, 2000])
+    } else {
+        let t = *rng.pick(&[32_769usize, 33_000, 40_000, 49_152, 65_535, 65_536, 65_537, 70_000, 100_000, 131_000, MAX_BUFFER_SIZE - 1]);
+        b.tag(match t { 0..=40_000 => "bighead:32k-40k", 40_001..=65_537 => "bighead:40k-64k", _ => "bighead:64k-128k" });
+        t
+    };
+    b.mark();
+    b.lit(pre.as_bytes());
+    // the run is split in two header fields in some cases (more than one long field)
+    if rng.chance(1, 3) {
+        let first = (total - fixed) / 3;
+        b.rep(first, b'a');
+        b.lit(b"\r\nx-more: ");
+        b.rep(total - fixed - first - "\r\nx-more: ".len(), b'b');
+    } else {
+        b.rep(total - fixed, b'a');
+    }
+    let unterminated = oversize && rng.chance(1, 3);
+    if unterminated {
+        b.tag("bighead:unterminated");
+    } else {
+        b.lit(post.as_bytes());
+        b.mark();
+        match method {
+            "POST" => b.lit(b"hello"),
+            "PUT" => b.lit(b"3;x=y\r\nabc\r\n2\r\nde\r\n0\r\n\r\n"),
+            _ => {}
+        }
+        if rng.chance(1, 2) {
+            b.mark();
+            b.lit(b"GET /after HTTP/1.1\r\nHost: x\r\n\r\n");
+            b.tag("bighead:request-after");
+        }
+    }
+    let len = b.pos;
+    let seg = match if oversize { *rng.pick(&[1u64, 5]) } else { rng.below(if thorough { 6 } else { 5 }) } {
+        0 => Seg::Cuts(vec![]),
+        1 => Seg::Every(4096),
+        2 => Seg::Every(16384),
+        3 => {
+            // cuts around 32 KiB and 64 KiB, counted from the start of the stream and of the head
+            let mut c = vec![];
+            for base in [0usize, start] {
+                for k in [32_768usize, 65_536] {
+                    c.extend([base + k - 1, base + k, base + k + 1]);
+                }
+            }
+            c.extend(b.marks.iter().copied());
+            Seg::Cuts(sanitize_cuts(&c, len))
+        }
+        4 => {
+            let k = *rng.pick(&[32_768usize, 65_536]);
+            let d = *rng.pick(&[0usize, 1]);
+            Seg::Cuts(sanitize_cuts(&[start, start + k - 1 + d, start + k + d], len))
+        }
+        _ => Seg::Every(*rng.pick(&[8192usize, 5000])),
+    };
+    let (mut delays, mut wblock) = (vec![], 0u8);
+    if rng.chance(1, 3) {
+        delays = (0..before + 2).map(|_| *rng.pick(&[0u8, 1, 2, 3])).collect();
+        wblock = *rng.pick(&[0u8, 0, 1]);
+        b.tag("sched:slow-handlers");
+    }
+    Case { pieces: b.pieces.clone(), seg, with_b: 1, delays, wblock, tags: b.tags.into_iter().collect() }
+}
+
 fn gen_case(rng: &mut Rng, thorough: bool) -> Case {
+    if rng.chance(1, if thorough { 12 } else { 25 }) {
+        return gen_big_head_case(rng, thorough);
+    }
     let mut b = Builder::new();
     let malformed = rng.chance(1, 4);
     let n = rng.range(1, 6) as usize;
